@@ -55,9 +55,17 @@ ZONES = ["America/Los_Angeles", "UTC", "Europe/Berlin", "Asia/Kolkata", "Austral
 # --------------------------------------------------------------------------- helpers
 
 
-def aware(epoch_ms, zone):
-    """Aware datetime for an epoch given in integer milliseconds."""
+def aware(epoch_ms, zone, kind="pytz"):
+    """Aware datetime for an epoch given in integer milliseconds, carrying a pytz zone (what the
+    data client produces), a standard-library zoneinfo zone or a fixed UTC offset."""
     base = datetime.fromtimestamp(epoch_ms // 1000, tz=timezone.utc) + timedelta(milliseconds=epoch_ms % 1000)
+    if kind == "zoneinfo":
+        import zoneinfo
+
+        return base.astimezone(zoneinfo.ZoneInfo(zone))
+    if kind == "fixed":
+        off = pytz.timezone(zone).utcoffset(datetime(2019, 1, 15)) if zone != "UTC" else timedelta(0)
+        return base.astimezone(timezone(off))
     return base.astimezone(pytz.timezone(zone))
 
 
@@ -155,14 +163,14 @@ def prop_documents(spec, rec):
                 "sessionID": d["session"],
                 "spaceID": d["space"],
                 "stationID": "stn-" + d["space"],
-                "connectionTime": aware(d["conn_ms"], d["zone"]),
-                "disconnectTime": aware(d["disc_ms"], d["zone"]),
+                "connectionTime": aware(d["conn_ms"], d["zone"], spec.get("tzkind", "pytz")),
+                "disconnectTime": aware(d["disc_ms"], d["zone"], spec.get("tzkind", "pytz")),
                 "doneChargingTime": None,
                 "kWhDelivered": d["kwh"],
                 "timezone": d["zone"],
             }
         )
-    start = aware(spec["start_ms"], spec["start_zone"])
+    start = aware(spec["start_ms"], spec["start_zone"], spec.get("tzkind", "pytz"))
     end = start + timedelta(days=30)
     rec_fn = Recorder()
     params = make_params(spec, rec_fn)
@@ -251,6 +259,18 @@ def prop_documents(spec, rec):
         if d["conn_ms"] % 1000:
             labels.add("sub_second")
     labels.add("zone_" + spec["docs"][0]["zone"].split("/")[-1])
+    labels.add("tz_" + spec.get("tzkind", "pytz"))
+    if spec.get("tzkind") == "zoneinfo":
+        import zoneinfo
+
+        z = zoneinfo.ZoneInfo(spec["docs"][0]["zone"])
+        for d in spec["docs"]:
+            o1 = datetime.fromtimestamp(d["conn_ms"] // 1000, z).utcoffset()
+            o2 = datetime.fromtimestamp(d["disc_ms"] // 1000, z).utcoffset()
+            if o1 != o2:
+                labels.add("zoneinfo_session_across_dst")
+                if "max_len_cap_applied" in labels or spec["max_len"] is not None:
+                    labels.add("zoneinfo_session_across_dst_with_max_len")
     if fit:
         labels.add("fit")
     if spec["via_queue"]:
@@ -258,6 +278,7 @@ def prop_documents(spec, rec):
     rec.case(spec, labels, nt)
 
 
+DST_OF = {"America/Los_Angeles": [1552212000, 1572771600], "Europe/Berlin": [1553994000, 1572138000], "Australia/Lord_Howe": [1570289400, 1554564600]}
 DST_INSTANTS = [1552212000, 1572771600, 1553994000, 1572138000, 1570289400, 1554564600]  # LA, Berlin, Lord Howe changes (2019)
 
 
@@ -267,6 +288,10 @@ def doc_cases(draw):
     P = 60 * period
     zone = draw(st.sampled_from(ZONES))
     base = draw(st.one_of(st.integers(1_400_000_000, 1_700_000_000), st.sampled_from(DST_INSTANTS).map(lambda x: x - 7200)))
+    span_dst = zone in DST_OF and draw(st.integers(0, 3)) == 0
+    if span_dst:
+        # sessions that begin before a DST change of their own zone and end after it
+        base = draw(st.sampled_from(DST_OF[zone])) - draw(st.integers(600, 7200))
     start_ms = (base - draw(st.sampled_from([0, 1, P - 1, P, 3 * P + 17, 86400]))) * 1000 + draw(st.sampled_from([0, 0, 1, 500, 999]))
     fit = draw(st.integers(0, 3)) == 0
     docs = []
@@ -275,6 +300,8 @@ def doc_cases(draw):
         # aim connection times at period boundaries
         conn = t + draw(st.one_of(st.integers(0, 4 * P), st.sampled_from([0, P - (t % P), P - (t % P) - 1, P - (t % P) + 1])))
         stay = draw(st.one_of(st.sampled_from([P, 2 * P - 1, 2 * P + 1, 7 * P, 3600 * 5, 86400 * 2] + ([] if fit else [0, 1, 30, P - 1])), st.integers(P if fit else 0, 40 * P)))
+        if span_dst:
+            stay = draw(st.integers(7800, 6 * 3600))
         if fit:
             # the fit's domain is a stay of at least one period (DESIGN.md section 5)
             while (conn + stay) // P - conn // P < 1:
@@ -285,7 +312,7 @@ def doc_cases(draw):
         if disc_ms < conn_ms:
             disc_ms = conn_ms
         docs.append({"session": "ses-%d" % i, "space": draw(st.sampled_from(["CA-303", "AG-1F01", "sp-%d" % i])), "conn_ms": conn_ms, "disc_ms": disc_ms, "zone": zone, "kwh": draw(st.sampled_from([0.1, 0.75, 3.0, 14.2, 55.0]))})
-        t = conn
+        t = conn if not span_dst else t
     V = draw(st.sampled_from([208.0, 240.0]))
     kind = "two" if fit else draw(st.sampled_from([None, None, "ideal", "two"]))
     bp = None
@@ -293,11 +320,19 @@ def doc_cases(draw):
         bp = {"kind": "ideal"}
     elif kind == "two":
         bp = {"kind": "two", "fit": fit, "kwargs": draw(st.sampled_from([None, {"transition_soc": 0.7}, {"noise_level": 0.25}]))}
+    max_len = draw(st.sampled_from([None, None, 1, 12, 100]))
+    if span_dst or draw(st.integers(0, 3)) == 0:
+        # a cap within an hour of some document's true stay (in periods)
+        dd = draw(st.sampled_from(docs))
+        k = dd["disc_ms"] // (P * 1000) - dd["conn_ms"] // (P * 1000)
+        h = max(1, int(60 / period))
+        max_len = max(1, k + draw(st.integers(-h, h)))
     return {
         "period": period,
         "voltage": V,
         "max_power": draw(st.sampled_from([3.3, 6.6, 7.0, 32 * V / 1000, 32 * V / 1000])),
-        "max_len": draw(st.sampled_from([None, None, 1, 12, 100])),
+        "max_len": max_len,
+        "tzkind": draw(st.sampled_from(["pytz", "pytz", "zoneinfo", "fixed"])),
         "force_feasible": draw(st.booleans()),
         "battery_params": bp,
         "start_ms": min(start_ms, docs[0]["conn_ms"]),
@@ -313,9 +348,10 @@ def doc_cases(draw):
 class StubEvents(StochasticEvents):
     """The designed extension point: sample() supplied by the test input."""
 
-    def __init__(self, days):
+    def __init__(self, days, integer=False):
         super().__init__()
-        self.days = [np.array(d, dtype=float).reshape(-1, 3) for d in days]
+        # hourly-binned samples may well come as an integer matrix
+        self.days = [np.array(d, dtype=int if integer else float).reshape(-1, 3) for d in days]
         self.i = 0
 
     def sample(self, n_samples):
@@ -337,7 +373,7 @@ def prop_stochastic(spec, rec):
     days = spec["days"]
     rec_fn = Recorder()
     params = make_params(spec, rec_fn)
-    gen = StubEvents([d for d in days if len(d) > 0])
+    gen = StubEvents([d for d in days if len(d) > 0], integer=bool(spec.get("int_matrix")))
     import contextlib
     import io
 
@@ -415,6 +451,8 @@ def prop_stochastic(spec, rec):
         if (F(dur) * pph).denominator != 1:
             nt = True
     require(len(got) == expected, "one_session_per_valid_row", lambda: "%d sessions for %d valid rows" % (len(got), expected))
+    if spec.get("int_matrix"):
+        labels.add("integer_sample_matrix")
     if len(days) > 1:
         labels.add("multi_day")
     if any(len(d) == 0 for d in days):
@@ -453,7 +491,11 @@ def stochastic_cases(draw):
         bp = {"kind": "ideal"}
     elif kind == "two":
         bp = {"kind": "two", "fit": fit, "kwargs": draw(st.sampled_from([None, {"transition_soc": 0.7}]))}
-    return {"period": period, "voltage": V, "max_power": draw(st.sampled_from([3.3, 6.6, 32 * V / 1000])), "max_len": draw(st.sampled_from([None, None, 1, 3, 12])), "force_feasible": draw(st.booleans()), "battery_params": bp, "days": days}
+    int_matrix = draw(st.integers(0, 3)) == 0
+    if int_matrix:
+        # whole hours and whole kWh, handed over as an integer matrix
+        days = [[[int(r[0]), int(max(1, round(r[1]))) if r[1] > 0 else 0, int(max(1, round(r[2]))) if r[2] > 0 else 0] for r in d] for d in days]
+    return {"period": period, "voltage": V, "max_power": draw(st.sampled_from([3.3, 6.6, 32 * V / 1000])), "max_len": draw(st.sampled_from([None, None, 1, 3, 12])), "force_feasible": draw(st.booleans()), "battery_params": bp, "days": days, "int_matrix": int_matrix}
 
 
 # --------------------------------------------------------------------------- clipping
@@ -567,8 +609,8 @@ def fit_cases(draw):
 
 def subchecks(tier):
     return [
-        Given("documents", doc_cases(), prop_documents, quick=1500, thorough=200000, floors={"max_len_cap_applied": 0.076, "force_feasible_cap_applied": 0.1, "fit": 0.07, "sub_second": 0.2, "instant_on_period_boundary": 0.079, "zero_period_stay": 0.03}),
-        Given("stochastic", stochastic_cases(), prop_stochastic, quick=800, thorough=100000, floors={"invalid_row": 0.058, "multi_day": 0.258, "empty_day": 0.1, "fit": 0.07, "max_len_cap_applied": 0.076}),
+        Given("documents", doc_cases(), prop_documents, quick=1500, thorough=200000, floors={"max_len_cap_applied": 0.076, "force_feasible_cap_applied": 0.1, "fit": 0.07, "sub_second": 0.2, "instant_on_period_boundary": 0.079, "zero_period_stay": 0.03, "zoneinfo_session_across_dst_with_max_len": 0.01, "tz_zoneinfo": 0.1}),
+        Given("stochastic", stochastic_cases(), prop_stochastic, quick=800, thorough=100000, floors={"invalid_row": 0.058, "multi_day": 0.258, "empty_day": 0.1, "fit": 0.07, "max_len_cap_applied": 0.076, "integer_sample_matrix": 0.1}),
         Given("clipping", clipping_cases(), prop_clipping, quick=400, thorough=40000, floors={"some_value_clipped": 0.3}, jobs_quick=2),
         Given("capacity_fit", fit_cases(), prop_fit, quick=1500, thorough=200000, floors={"small_request": 0.2, "period_not_dividing_60": 0.15, "starts_in_rampdown": 0.1}),
     ]
